@@ -94,6 +94,8 @@ def check(rec, kind, idx, rng, tier):
     if len(boxes) == 16:
         rec.ok('border_subsets_16')
     geom = gen.random_geom(rng)
+    if idx % 8 == 3 and boxes:
+        _bigint_cases(rec, rng, boxes, H, W, geom)
     if kind == 'trim':
         ename, excl = EXCL[int(rng.integers(0, len(EXCL)))]
         dtype = str(rng.choice(['float64', 'float32', 'int32', 'int64', 'uint8', 'int16']))
@@ -123,6 +125,9 @@ def check(rec, kind, idx, rng, tier):
                     if ename == 'neg':
                         continue
             data = a.astype(dtype)
+            if np.dtype(dtype).kind == 'f' and has_nan and rng.random() < 0.3:
+                # +-inf cells are kept cells when only NaN is excluded
+                ii = int(rng.integers(0, H)); jj = int(rng.integers(0, W)); data[ii, jj] = float(rng.choice([np.inf, -np.inf]))
             # oracle recomputed from the data actually passed (not from the construction)
             ex = np.array(eff, dtype='float64')
             df = data.astype('float64')
@@ -191,6 +196,9 @@ def check(rec, kind, idx, rng, tier):
             attrs = {'res': (geom['cx'], geom['cy']), 'nested': {'a': [1, 2]}}
             vsrc = gen.mk(gen.rand_layout(vals, rng), attrs=attrs, name='values', extra=bool(rng.random() < 0.3), **geom)
             zsrc = gen.mk(gen.rand_layout(zones, rng), attrs={'z': 1}, name='zones', **geom)
+            if rng.random() < 0.3:
+                # same grid, coordinates computed another way (differ in the last bit): crop is positional
+                zsrc = zsrc.assign_coords(y=np.nextafter(zsrc['y'].values, np.inf), x=np.nextafter(zsrc['x'].values, -np.inf)); rec.cls('crop.coords_differ_by_one_ulp')
             zid = tuple(ids) if rng.random() < 0.5 else list(ids)
             if rng.random() < 0.3:
                 zid = type(zid)(float(x) for x in ids)
@@ -208,6 +216,39 @@ def check(rec, kind, idx, rng, tier):
             if hasattr(out, 'exc'):
                 rec.violation('crop.raises', 'crop raised %r' % out, pay); continue
             _compare_window(rec, 'crop', out, vsrc, et, eb, el, er, nm, pay)
+
+
+def _bigint_cases(rec, rng, boxes, H, W, geom):
+    """int64 ids above 2**53 that differ by one: exact as integers, equal as float64."""
+    from xrspatial.zonal import trim, crop
+    big = 2 ** 53
+    for subset, (t, b, l, r) in boxes[:6]:
+        rec.evaluation()
+        data = np.full((H, W), big, dtype='int64')
+        box = np.where(rng.random((b - t + 1, r - l + 1)) < 0.5, big + 1, big).astype('int64')
+        box[0, int(rng.integers(0, box.shape[1]))] = big + 1; box[-1, int(rng.integers(0, box.shape[1]))] = big + 1
+        box[int(rng.integers(0, box.shape[0])), 0] = big + 1; box[int(rng.integers(0, box.shape[0])), -1] = big + 1
+        data[t:b + 1, l:r + 1] = box
+        kept = data != big
+        rr = np.where(kept.any(axis=1))[0]; cc = np.where(kept.any(axis=0))[0]
+        et, eb, el, er = int(rr[0]), int(rr[-1]), int(cc[0]), int(cc[-1])
+        src = gen.mk(data, attrs={'k': 1}, name='src', **geom)
+        out = rec.call(trim, src, [big])
+        pay = dict(func='trim', data=data, excludes=[big], expected_window=[et, eb, el, er], note='int64 ids above 2**53')
+        if hasattr(out, 'exc'):
+            rec.violation('trim.raises', 'trim raised %r' % out, pay)
+        elif _compare_window(rec, 'trim', out, src, et, eb, el, er, 'trim', pay):
+            rec.ok('int64_ids_above_2^53')
+        # crop: zones hold big / big+1, select big+1
+        rec.evaluation()
+        vals = rng.integers(0, 9, (H, W)).astype('float64')
+        zsrc = gen.mk(data, name='zones', **geom); vsrc = gen.mk(vals, attrs={'k': 1}, name='values', **geom)
+        out = rec.call(crop, zsrc, vsrc, (big + 1,))
+        pay = dict(func='crop', zones=data, zones_ids=(big + 1,), expected_window=[et, eb, el, er], note='int64 ids above 2**53')
+        if hasattr(out, 'exc'):
+            rec.violation('crop.raises', 'crop raised %r' % out, pay)
+        elif _compare_window(rec, 'crop', out, vsrc, et, eb, el, er, 'crop', pay):
+            rec.ok('int64_ids_above_2^53')
 
 
 def _compare_window_pre(rec, out, src, et, eb, el, er, nan_needed, df, ex, pay):
